@@ -173,6 +173,7 @@ impl St {
                                         return Ok(());
                                     }
                                 }
+                                Step::Search => {}
                                 Step::Count => {
                                     let c = d.count_rest();
                                     if c != hi - lo {
@@ -679,6 +680,56 @@ impl St {
                     self.flags |= fl::READ_OR_MOVED;
                 }
                 res
+            }
+            Op::CmpCap(m, s, l, differ) => {
+                let m = (*m as usize).min(8);
+                let l = (*l as usize).min(m);
+                let mine: Vec<u32> = self.model.iter().map(|x| x.1).collect();
+                let mut ov: Vec<u32> = (0..l).map(|i| if i < len { mine[i] } else { 5000 + i as u32 }).collect();
+                if let Some(d) = differ {
+                    let p = d.resolve(len);
+                    if p < ov.len() {
+                        if self.rnd() & 1 == 0 {
+                            ov[p] += 1
+                        } else {
+                            ov[p] -= 1
+                        }
+                    }
+                }
+                let route = ALL_ROUTES[(self.rnd() % 4) as usize];
+                let (other, oids) = self.build(m, Ctor::New, route, *s as usize, &ov)?;
+                self.allowed.extend(&oids);
+                let exp_eq = mine == ov;
+                let exp_ord = lex(&mine, &ov);
+                let o = &*other;
+                let r1 = self.call(move |b| (b.eq_any(o), b.partial_cmp_any(o)));
+                let r2 = {
+                    // and the other way round, with our buffer on the right-hand side
+                    let me = self.b();
+                    std::panic::catch_unwind(std::panic::AssertUnwindSafe(|| if n <= 8 { Some((o.eq_any(me), o.partial_cmp_any(me))) } else { None }))
+                };
+                let oobs = Self::observe_buf(&*other, m).map_err(|e| format!("the other buffer after comparing: {e}"));
+                drop(other);
+                self.dead_ids.extend(oids);
+                oobs?;
+                let (eq, pc) = cc!(r1);
+                if eq != exp_eq || pc != Some(exp_ord) {
+                    return Err(format!("comparison with a buffer of capacity {m}: == gave {eq}, partial_cmp gave {:?}; sequences {:?} vs {:?}", pc, mine, ov));
+                }
+                match r2 {
+                    Ok(Some((eq2, pc2))) => {
+                        if eq2 != exp_eq || pc2 != Some(exp_ord.reverse()) {
+                            return Err(format!("comparison (capacity {m} buffer on the left): == gave {eq2}, partial_cmp gave {:?}; sequences {:?} vs {:?}", pc2, ov, mine));
+                        }
+                    }
+                    Ok(None) => {}
+                    Err(p) => return Err(format!("unexpected panic: {}", panic_msg(&p))),
+                }
+                self.dig(exp_eq as u64 + 2 * (exp_ord as i8 + 1) as u64);
+                if len > 0 {
+                    self.flags |= fl::READ_OR_MOVED;
+                }
+                Ok(Flow::Done)
             }
             Op::EqSlice(differ) => {
                 let mine: Vec<u32> = self.model.iter().map(|m| m.1).collect();
